@@ -142,11 +142,13 @@ class SamplerCase(Case):
         N, R, P = self.N, self.R, self.P
         props = []
         log = oc.value["log"]
-        props.append(("generator_of_the_evaluator_is_used", SB(all(g is oc.value["rng"] for g in log["rng"]) and len(log["rng"]) >= 1)))
+        props.append(("generator_of_the_evaluator_is_used", SB(all(g is oc.value["rng"] for g in log["rng"]) and (len(log["rng"]) >= 1 or self.dim == 0))))
         if self.method in QMC:
             # every point asked from the engine is handed out (a subset of an LHS design is not an LHS design)
             nb = 1 if self.shared else R
-            props.append(("qmc_engine_asked_for_exactly_the_points_handed_out", SB(log["random"] == [nb * P] * self.calls)))
+            # (a sampler that handles no free variable hands out nothing and need not ask)
+            ok = log["random"] == [nb * P] * self.calls or (self.dim == 0 and log["random"] in ([], [nb * P] * self.calls))
+            props.append(("qmc_engine_asked_for_exactly_the_points_handed_out", SB(ok)))
         for call, out in enumerate(oc.value["outs"]):
             a = np.asarray(vals(out), dtype=object)
             props.append((f"call{call}.shape", SB(a.shape == (R, P, N))))
@@ -344,6 +346,8 @@ def build_cases(tier):
         add(method=m, N=3, R=2, P=2, shared=True, mask=(True, False, True))
         add(method=m, N=3, R=1, P=3, sampler_map=(0, 1, 0), which=0, nsamplers=2)
         add(method=m, N=2, R=2, P=1, calls=2)
+        # a sampler whose only variable is fixed: nothing it returns may be non-zero
+        add(method=m, N=3, R=2, P=2, mask=(True, False, True), sampler_map=(0, 1, 0), which=1, nsamplers=2)
     add(method="uniform", N=2, R=2, P=2, options={"loc": -0.5, "scale": 1.0})
     add(method="truncnorm", N=1, R=2, P=2, options={"a": -2.0, "b": 2.0})
     add(method="lhs", N=3, R=3, P=2, mask=(False, True, True), sampler_map=(0, 1, 1), which=1, nsamplers=2)
@@ -352,6 +356,9 @@ def build_cases(tier):
     add(PipelineCase, methods=("uniform", "uniform"), sampler_map=(0, 1, 0), N=3)
     add(PipelineCase, methods=("truncnorm", "sobol"), sampler_map=(1, 0, 1), N=3, mask=(True, True, False))
     add(PipelineCase, methods=("lhs", "uniform", "halton"), sampler_map=(2, 0, 1, 0), N=4, evals=3)
+    # sampler indices in use need not be contiguous (a configured sampler nothing refers to)
+    add(PipelineCase, methods=("uniform", "norm", "lhs"), sampler_map=(0, 2, 2), N=3)
+    add(PipelineCase, methods=("sobol", "uniform", "norm"), sampler_map=(2, 2, 2, 2), N=4, mask=(True, False, True, True))
     import os
     seed = int(os.environ.get("VERIF_SEED", "0") or 0)
     add(RealLhsCase, 2, 2, 2, seed)
